@@ -39,6 +39,15 @@ def run_case(args):
             if R.random() < 0.7:
                 keys += pre + R.choice(['', body[:1], body[:3]]) + '\x01' + R.choice(['', '\x01', '\x08']) + '\n'
         keys += R.choice(['', '/' + mb(70) + '\x01\n', '?' + mb(20) + '\x08\x08\n'])
+    elif R.random() < 0.07:
+        # the registers that are computed on demand (";" = the current line, "#", "^") and long lines: whatever is copied out of a
+        # line, however long, is copied in whole characters
+        ch, per = R.choice([('é', 2), ('中', 3), ('😀', 4), ('ب', 2)])
+        n = R.choice([1023, 1024, 1025, 2047, 600, 5000]) // per + R.choice([-1, 0, 0, 1])
+        lines[R.randrange(len(lines))] = R.choice(['', 'a', 'ab', 'abc']) + ch * n
+        k = lines.index(next(l for l in lines if ch * 100 in l)) + 1
+        keys = '%dG' % k + ''.join(R.choice(['";p', '";P', 'A\x12;\x1b', 'o\x12;\x1b', ':pu ;\n', ':s/$/\x12;/\n', 'I\x12;\x12;\x1b', '"#p', '"^P', 'yy";p', ':%dy a\n"ap' % k, '$'])
+                                   for _ in range(R.randint(1, 4)))
     data = keys.encode('utf-8') + b'\x1b:w! out\n'
     r, d = common.run_vi(vi, data, files={'f1': gen.buf_bytes(lines)}, timeout=60)
     out = common.readf(d, 'out')
